@@ -125,7 +125,7 @@ class Ctx:
             self.__dict__.setdefault("_failed", set()).add((sig.get("clause"), hh))
         for f in self.findings:
             if f.get("status", "open") == "open" and _matches(f, sig):
-                if f.get("auto") and hh is not None and self._baseline() is not None \
+                if (f.get("auto") or f.get("exact")) and hh is not None and self._baseline() is not None \
                         and hh not in self._baseline().get(sig.get("clause"), ()):
                     continue                      # same stratum, but not a behaviour that was measured failing
                 h = self.known_hits.setdefault(f["id"], [0, detail, f])
